@@ -6,7 +6,7 @@
    run (catch_unwind + process-abort detection, overflow checks on and off). *)
 From Coq Require Import String.
 From Http Require Import Model.Bytes Model.Utf8 Model.Num Model.Request Model.Chunked Model.Response
-     Model.Checked Model.Coding Proofs.ReqResume Proofs.ChunkResume Proofs.RespResume Proofs.Safety Proofs.CheckedOk.
+     Model.Checked Model.Coding Proofs.ReqResume Proofs.ChunkResume Proofs.RespResume Proofs.Safety Proofs.CheckedOk Proofs.CheckedReuse.
 
 (* `&raw_message[total_consumed..]`, `&raw_message[..needed]`: consumed never exceeds the input *)
 Theorem C06_request_consumed_within_input :
@@ -101,6 +101,43 @@ Theorem C06_zlib_sniff_arithmetic :
     c_zlib_check_value cmf flg = COk ((cmf * 256 + flg) mod 31)%N.
 Proof. exact c_zlib_check_value_ok. Qed.
 Print Assumptions C06_zlib_sniff_arithmetic.
+
+(* ---- a parser value that is kept and fed one message after the other (every call that did not
+   answer with a rejection may be followed by another): still no operation fails.  For responses
+   this is not obvious -- after a chunked message the value holds a non-empty body while the parser
+   is back in its first phase -- and rests on the headers of the finished message staying in the
+   collection: the Content-Length that de-chunking added is joined with any new one (two values: a
+   text with a comma, rejected; none: exactly the body length). ---- *)
+Theorem C06_request_reuse_never_panics :
+  forall (uri : Type) (uri_parse : bytes -> option uri) cfg (st : req_state uri) raw,
+    req_reach2 uri uri_parse cfg st -> fits (length (r_body st)) raw ->
+    c_req_parse uri uri_parse cfg st raw = COk (req_parse uri uri_parse cfg st raw).
+Proof. exact c_req_parse_reused. Qed.
+Print Assumptions C06_request_reuse_never_panics.
+
+Theorem C06_response_reuse_never_panics :
+  forall st raw, resp_reach2 st -> resp_fits st raw ->
+    exists r, c_resp_parse st raw = COk r /\ roeq r (resp_parse st raw).
+Proof. exact c_resp_parse_reused. Qed.
+Print Assumptions C06_response_reuse_never_panics.
+
+Theorem C06_response_reuse_invariant_kept :
+  forall st buf st' o, resp_inv2 st -> body_ok st -> resp_parse st buf = (st', o) ->
+    match o with Reject _ => True | _ => resp_inv2 st' end.
+Proof. exact resp_inv2_preserved. Qed.
+Print Assumptions C06_response_reuse_invariant_kept.
+
+(* a second message on a value that has just finished a chunked one: the state is reachable, holds a
+   body, and the next message's declared length cannot undercut it *)
+Example C06_reuse_after_chunked :
+  let m1 := str "HTTP/1.1 200 OK"%string ++ CRLF ++ str "Transfer-Encoding: chunked"%string ++ CRLF ++ CRLF
+            ++ str "5"%string ++ CRLF ++ str "hello"%string ++ CRLF ++ str "0"%string ++ CRLF ++ CRLF in
+  let m2 := str "HTTP/1.1 200 OK"%string ++ CRLF ++ str "Content-Length: 2"%string ++ CRLF ++ CRLF ++ str "ab"%string in
+  let st1 := fst (resp_parse resp_init m1) in
+  s_body st1 = str "hello"%string /\ s_phase st1 = SStatusLine
+  /\ snd (resp_parse st1 m2) = Reject EInvalidContentLength
+  /\ c_resp_parse st1 m2 = COk (resp_parse st1 m2).
+Proof. vm_compute. repeat split. Qed.
 
 (* the str slicing of decode_body_as_text and split_at (header values are Strings: valid UTF-8) *)
 Theorem C06_split_at_never_panics :
